@@ -542,13 +542,6 @@ def handleAttach (cmd : String) (args : List Sx) : Option String :=
       "(" ++ toString a.stream ++ " " ++ toString a.annot ++ " " ++ toString a.fs ++ " " ++ showRect a.rect ++ ")"
     pure ("(" ++ " ".intercalate (r.2.map fun p => "(" ++ " ".intercalate (p.map showAnnot) ++ ")") ++ ") (" ++
       " ".intercalate (r.1.files.map (showSpec true)) ++ ") " ++ toString r.1.next)
-  | "rewrite", [.list headLinks] => do
-    let headLinks ← allSome (fun x => match x with
-      | .list [h, t] => do pure (⟨← optStr? h, ← optStr? t⟩ : LinkEl)
-      | _ => none) headLinks
-    match writeAllAgain (metaAttachments (fun _ => ⟨none, none, none, none⟩) headLinks) with
-    | .error e => pure (renderErr e)
-    | .ok () => pure "ok"
   | "docatt", [.list guesses, .list table, .list headLinks, .list docAtts, .list pages] => do
     let guesses ← allSome guess? guesses
     let table ← allSome fetchEntry? table
